@@ -108,7 +108,8 @@ func implementsError(t types.Type) bool {
 		// an interface type guarantees error iff its method set includes Error() string
 		return types.Implements(t, errorIface()) || types.AssignableTo(t, types.Universe.Lookup("error").Type()) || it.NumMethods() > 0 && types.Implements(t, errorIface())
 	}
-	return types.Implements(t, errorIface()) || types.Implements(types.NewPointer(t), errorIface())
+	// the dynamic value is exactly of type t: pointer-receiver methods do not count for a non-pointer t
+	return types.Implements(t, errorIface())
 }
 
 // recoverHandler analyses `defer func() { if f, ok := recover().(T); ok { err = error(f) } }()`.
